@@ -99,6 +99,9 @@ TARGETS = [
     ("pams/agents/market_share_fcn_agent.py", "MarketShareFCNAgent", "get_sum_trade_volume"),
     ("pams/market.py", "Market", "get_executed_volumes"),
     ("pams/simulator.py", "Simulator", "_update_agents_for_execution"),
+    ("pams/simulator.py", "Simulator", "_add_market"),
+    ("pams/simulator.py", "Simulator", "_add_agent"),
+    ("pams/simulator.py", "Simulator", "_add_session"),
     ("pams/simulator.py", "Simulator", "_add_event"),
     ("pams/simulator.py", "Simulator", "_check_event_class_and_instance"),
     ("pams/simulator.py", "Simulator", "_trigger_event_before_order"),
